@@ -74,11 +74,12 @@ for line in open(os.path.join(V, 'properties.jsonl'), encoding='utf-8'):
     p = json.loads(line)
     TITLES[p['id']] = p['title']
 
+BUILT = set(open(os.path.join(V, 'tools', 'built.txt'), encoding='utf-8').read().split())
 checks = []
 na = []
 for pid in sorted(TITLES):
     level, ref, technique, text, note = CHECKS[pid]
-    if not os.path.exists(os.path.join(V, 'mc', 'props', pid + '.py')):
+    if pid not in BUILT or not os.path.exists(os.path.join(V, 'mc', 'props', pid + '.py')):
         na.append({'property_id': pid, 'reason': 'driver not built yet in this session (planned: ' + technique + '); see DESIGN.md section ' + ref})
         continue
     checks.append({
